@@ -39,8 +39,8 @@ theorem read_only (d : Defects) (n : Nat) (w : World) (c : Cmd)
       | cons f fs ih =>
         intro w0 cache acc
         rw [runCmd.go]
-        have h1 := isDirty_frame true R fuel w0 cache f R []
-        generalize isDirty true R fuel w0 cache f R [] = r at h1
+        have h1 := isDirty_frame true R fuel w0 cache f R [] none
+        generalize isDirty true R fuel w0 cache f R [] none = r at h1
         obtain ⟨dr, w1, c1⟩ := r
         exact h1.trans (ih w1 c1 _)
     have := hgo (w.runCounter + 1) (2 * n + 4)
